@@ -214,7 +214,7 @@ def run_path(sc):
                     # second half of a link step when libraries appear atomically, the writer's look at the old
                     # cache file (which libraries to clean up)
                     while (not ag.finished and ag.at and ag.at[0] != want_pc and tries < 12
-                           and ag.at[0] in ("r_read", "w_link_b", "r_open")
+                           and ag.at[0] in ("r_read", "w_link_b", "r_open", "x_unlink")
                            and (ag.at[0] != "r_open" or any(g[0] == "w_open" for g in ag.trace))):
                         kind_ = "extra-read" if ag.at[0] == "r_read" and not any(g[0] == "w_open" for g in ag.trace) else "aux-gate"
                         if kind_ == "extra-read":
@@ -489,6 +489,8 @@ def _paths_for(g, inits, thorough, seed, tour, n_walks, crash_classes=True):
             wrong = act["kind"] in ("hit", "miss") and (act["vars"] != act["want"] or any(f != act["want"] for f in act["funs"]))
             key = ("finish", act["kind"], act["vars"] if act["kind"] == "raised" else wrong)
         elif act.get("ev") == "crash" and crash_classes:
+            if crash_classes == "writer" and not act["at"].startswith("w_"):
+                continue                      # quick, codegen: a crash while only reading leaves nothing behind
             key = ("crash", act["at"], act["k"])
         else:
             continue
@@ -562,8 +564,8 @@ def run(ctx):
             if not inits:
                 raise MachineryError("no initial state recognised in %s" % gname)
             tour = "directed" not in tier    # codegen: shortest paths to every finish class (thorough: and every crash point)
-            plist = _paths_for(g, inits, thorough, ctx.seed, tour, (40 if thorough else 10) if tour else 0,
-                               crash_classes=True)
+            plist = _paths_for(g, inits, thorough, ctx.seed, tour, (40 if thorough else 6) if tour else 0,
+                               crash_classes=True if (tour or thorough) else "writer")
             size = calibrate(mode, n)
             for kind, p in plist:
                 steps = g.steps(p)
@@ -619,7 +621,9 @@ def run(ctx):
         for i in range(nj):
             jobs.append({"mode": "codegen", "oname": "O1", "what": "lib", "offsets": lib_offs[i::nj]})
         if not thorough:
-            jobs.append({"mode": "codegen", "oname": "O1", "what": "cache", "offsets": [0, 1, 100, -1]})
+            for off in (0, 2, 100, -1):       # one job each: every trial relinks four libraries
+                jobs.append({"mode": "codegen", "oname": "O1", "what": "cache", "offsets": [off]})
+        jobs.sort(key=lambda j: 0 if j["mode"] == "codegen" else 1)      # the expensive (relinking) trials first
         outs = par.pmap(_offset_trial, jobs, procs(), chunksize=1)
         ntr = 0
         for job, out in zip(jobs, outs):
